@@ -113,6 +113,7 @@ def _small_worker(args):
                     sh.viol.append(("cached_set_differs_from_fresh_set@build_pl",
                                     "grammar=%r input=[%s] config=%s mismatching hits=%d" % (
                                         ci.g, " ".join(ci.w), sem.cfg_name(ci.configs[i]), hk["2"][5]), ci.replay(i, {"h2": True})))
+            sem.closure_check(sh, ci, i, s)
             sites = sem.hook_site(s)
             hooks_any.update(sites)
         base_i = 1   # la=1 ; debug variants are compared with it
@@ -208,7 +209,7 @@ def _long_worker(args):
 
 def check(tier):
     ck = core.Check("C09", tier)
-    jobs_small = [(ck.seed, i, 14 if tier == "quick" else 40, "asan") for i in range(12 if tier == "quick" else 48)]
+    jobs_small = [(ck.seed, i, 14 if tier == "quick" else 40, "asan" if i % 4 != 3 else "asan-small") for i in range(12 if tier == "quick" else 160)]
     jobs_long = []
     sizes = [2000, 5000, 12000] if tier == "quick" else [2000, 5000, 12000, 30000, 50000, 50000]
     i = 0
